@@ -116,6 +116,7 @@ type env struct {
 	model       map[string]*entry            // by identifier (entries of the directory currently configured)
 	models      map[string]map[string]*entry // per configured directory
 	curPath     string
+	dirGone     bool // the data directory was removed and no store has succeeded since
 	base        []simos.TreeEntry // tree before the history (outside-path comparison)
 	faults      map[string]int
 	firedBefore int
